@@ -74,77 +74,76 @@ where
 
         let (mut stream, buf, size, packet, state) = self.split_borrows_mut();
 
-        match *state {
-            PacketStreamState::Idle => {
-                let chunk_size = if packet.end - *size < DEFAULT_CHUNK_SIZE {
-                    DEFAULT_CHUNK_SIZE
-                } else {
-                    packet.end
-                };
+        loop {
+            match *state {
+                PacketStreamState::Idle => {
+                    let chunk_size = if packet.end.saturating_sub(*size) < DEFAULT_CHUNK_SIZE {
+                        DEFAULT_CHUNK_SIZE
+                    } else {
+                        packet.end
+                    };
 
-                buf.resize(*size + chunk_size, 0);
+                    buf.resize(*size + chunk_size, 0);
 
-                if let Poll::Ready(result) = Pin::new(&mut stream)
-                    .poll_read(cx, &mut buf[*size..*size + chunk_size])
-                    .map(|res| res.ok().filter(|&size| size != 0 /* EOF */))
-                {
-                    if result.is_none() {
-                        return Poll::Ready(None);
+                    match Pin::new(&mut stream)
+                        .poll_read(cx, &mut buf[*size..*size + chunk_size])
+                        .map(|res| res.ok().filter(|&size| size != 0 /* EOF */))
+                    {
+                        Poll::Ready(None) => return Poll::Ready(None),
+                        Poll::Ready(Some(read)) => {
+                            *size += read;
+
+                            // We need to be able to read at least fixed header and one byte of size to proceed,
+                            // otherwise keep reading: Pending may only be returned once the reader said so
+                            // (and thereby registered the waker).
+                            if *size >= 2 {
+                                *state = PacketStreamState::ReadPacketLen;
+                            }
+                        }
+                        Poll::Pending => return Poll::Pending,
+                    }
+                }
+                PacketStreamState::ReadPacketLen => {
+                    // Omit packet ID, try to read the remaining length (from the received bytes only).
+                    let maybe_remaining_len =
+                        VarSizeInt::try_from(&buf[1..*size]).map(Some).or_else(|err| {
+                            if let ConversionError::InsufficientBufferSize(_) = err {
+                                return Ok(None); // Need to read more data
+                            }
+                            Err(err)
+                        });
+
+                    match maybe_remaining_len {
+                        Err(_) => return Poll::Ready(None),
+                        Ok(Some(remaining_len)) => {
+                            // Fixed header (1 byte), size of Variable Byte Integer
+                            // encoding the remaining length and its value.
+                            packet.start = 0;
+                            packet.end = 1 + remaining_len.len() + remaining_len.value() as usize;
+                            *state = PacketStreamState::ReadPacketData;
+                        }
+                        Ok(None) => {
+                            *state = PacketStreamState::Idle;
+                        }
+                    }
+                }
+                PacketStreamState::ReadPacketData => {
+                    if *size < packet.end {
+                        *state = PacketStreamState::Idle;
+                        continue;
                     }
 
-                    *size += result.unwrap();
-
-                    // We need to be able to read at least fixed header and one byte of size to proceed.
+                    *size -= packet.len();
                     if *size >= 2 {
                         *state = PacketStreamState::ReadPacketLen;
-                        return self.poll_next(cx);
+                    } else {
+                        *state = PacketStreamState::Idle;
                     }
+
+                    return Poll::Ready(Some(RxPacket::try_decode(
+                        buf.split_to(mem::replace(&mut packet.end, 0)).freeze(),
+                    )));
                 }
-
-                Poll::Pending
-            }
-            PacketStreamState::ReadPacketLen => {
-                // Omit packet ID, try to read the remaining length.
-                let maybe_remaining_len =
-                    VarSizeInt::try_from(&buf[1..]).map(Some).or_else(|err| {
-                        if let ConversionError::InsufficientBufferSize(_) = err {
-                            return Ok(None); // Need to read more data
-                        }
-                        Err(err)
-                    });
-
-                if maybe_remaining_len.is_err() {
-                    return Poll::Ready(None);
-                }
-
-                if let Some(remaining_len) = maybe_remaining_len.unwrap() {
-                    // Fixed header (1 byte), size of Variable Byte Integer
-                    // encoding the remaining length and its value.
-                    packet.start = 0;
-                    packet.end = 1 + remaining_len.len() + remaining_len.value() as usize;
-                    *state = PacketStreamState::ReadPacketData;
-                    return self.poll_next(cx);
-                }
-
-                *state = PacketStreamState::Idle;
-                self.poll_next(cx)
-            }
-            PacketStreamState::ReadPacketData => {
-                if *size < packet.end {
-                    *state = PacketStreamState::Idle;
-                    return self.poll_next(cx);
-                }
-
-                *size -= packet.len();
-                if *size != 0 {
-                    *state = PacketStreamState::ReadPacketLen;
-                } else {
-                    *state = PacketStreamState::Idle;
-                }
-
-                Poll::Ready(Some(RxPacket::try_decode(
-                    buf.split_to(mem::replace(&mut packet.end, 0)).freeze(),
-                )))
             }
         }
     }
